@@ -22,11 +22,35 @@ def sweeps(ctx):
     ]
 
 
+def family_blocks(ctx):
+    """Block families the conflict-heavy generator does not produce (C01 only): in-block create /
+    self-destruct / re-create / EIP-161 deletion with later readers and writers, and in-block code
+    changes (CREATE, EIP-7702 set / re-point / clear) - harness/src/bin/flatblock.rs, free-threaded,
+    result / outcomes / bundle vs stock revm in order."""
+    from checklib.props import flat_common as fc
+    ok, out, bins = core.cargo_build(["flatblock"])
+    if not ok:
+        raise RuntimeError("cargo build failed:\n" + out[-3000:])
+    res = []
+    for kind in ("destroy", "code"):
+        bl = fc.block_runs(ctx, bins["flatblock"], kind, 150 if ctx.quick else 4000)
+        res.append(dict(kind=kind, cases=bl.get("cases", 0), mismatch_lines=bl["mismatch_lines"]))
+    return res
+
+
 def run(ctx, pid=PID, sweeps_fn=None, what="grevm's result differs from in-order stock revm"):
     proof = core.proof_stage(pid, extra_targets=["Stm/Extract.vo"], tier=ctx.tier)
     for p in proof["problems"]:
         core.log("proof-stage problem:", p)
     agg, bins, model = sc.run_sweeps(ctx, (sweeps_fn or sweeps)(ctx))
+    if pid == PID:
+        fam = family_blocks(ctx)
+        for f in fam:
+            agg["cases"] += f["cases"]
+            for l in f["mismatch_lines"][:1]:
+                agg["oracle_mismatch"].append(dict(block_seed="flatblock-%s" % f["kind"], sched_seed=l.split()[0] if l.split() else "?",
+                                                   opts=["target/release/flatblock %s %d %d <outdir> <case>" % (f["kind"], ctx.seed, f["cases"])],
+                                                   detail=l[:2000]))
     free = None
     if not ctx.quick:
         # free-threaded volume (oracle only)
@@ -43,7 +67,7 @@ def finish(ctx, pid, proof, agg, bins, what, free=None, liveness=False, extra_co
     live = agg["driver_failure"] + (free["driver_failure"] if free else [])
     if mism:
         c = mism[0]
-        ctx.violation(what, dict(replay=sc.replay_cmd(c), case=c, detail=open(c["file"]).read()[:4000] if c.get("file") else "", seed=ctx.seed), True)
+        ctx.violation(what, dict(replay=sc.replay_cmd(c), case=c, detail=open(c["file"]).read()[:4000] if c.get("file") else c.get("detail", ""), seed=ctx.seed), True)
     elif liveness and live:
         c = live[0]
         ctx.violation("execution does not terminate without a timeout / deadlocks: " + c["failure"], dict(replay=sc.replay_cmd(c), case=c, seed=ctx.seed), True)
